@@ -54,7 +54,7 @@ class Capture:
         cap = self
         saved = (gm.GHEManager.find_design, gm.GHEManager.prepare_results, gm.GHEManager.write_output_files)
 
-        def find_design(mgr, throw=True):
+        def find_design(mgr, *a, **kw):
             cap.mgr = mgr
             return 0
 
